@@ -14,7 +14,8 @@ THEOREMS = {"CbProps.C17": [
     "CbProps.C17.skipped_block_no_effect", "CbProps.C17.unknown_active_is_error",
     "CbProps.C17.unmatched_is_error", "CbProps.C17.unclosed_is_error", "CbProps.C17.errs_monotone",
     "CbProps.C17.dash_D_is_leading_define", "CbProps.C17.line_without_macro_word_unchanged",
-    "CbProps.C17.string_and_punct_verbatim", "CbProps.C17.macro_word_replaced"]}
+    "CbProps.C17.string_and_punct_verbatim", "CbProps.C17.macro_word_replaced", "CbProps.C17.macro_inside_own_expansion_kept",
+    "CbProps.C17.top_level_word_replaced"]}
 
 NAMES = "ABC"
 
@@ -119,15 +120,16 @@ MACRO_NAMES = ["A", "B", "MAX", "N_1", "foo", "_x", "Z9"]
 
 def macro_cases(seed, n, gates):
     """lines mixing macro names as whole words / substrings / in strings / next to punctuation;
-    macro chains (acyclic by construction: body of macro i only mentions macros j > i)."""
+    macro chains (body of macro i only mentions macros j > i; in a quarter of the cases any macro: self-reference, cycles)."""
     r = Rng(seed, 172)
     for _ in range(n):
         k = r.range(1, len(MACRO_NAMES))
         names = r.shuffle(MACRO_NAMES)[:k]
         bodies = {}
         string_body = False
+        cyclic = r.chance(25)     # bodies may then mention ANY macro of the table (self-reference, cycles)
         for i, nm in enumerate(names):
-            later = names[i + 1:]
+            later = names if cyclic else names[i + 1:]
             kind = r.below(10)
             if kind < 3:
                 b = str(r.choice([0, 1, 42, 1234567890, -7]))
@@ -184,6 +186,15 @@ def many_cases():
         yield mk_case([], "#define A 1\n" + " ".join(["A"] * k) + "\n")
         yield mk_case([], "#define A B\n#define B 2\n" + "+".join(["A", "B"] * k) + "\n")
         yield mk_case([("A", "x")], "(" * k + "A" + ")" * k + " \"A\" " + "A;" * k + "\n")
+    # self-reference and cycles: a macro is not expanded again inside its own expansion
+    yield mk_case([], "#define A A + 1\nA A; (A)\n")
+    yield mk_case([], "#define A B\n#define B A\nA B A+B \"A\"\n")
+    yield mk_case([], "#define width height\n#define height width\nint width = height;\n")
+    yield mk_case([], "#define A B x\n#define B C y\n#define C A z\nA | B | C\n")
+    yield mk_case([], "#define A (B + A)\n#define B (A * B)\nA; B;\n")
+    yield mk_case([("A", "A")], "A A\n#undef A\nA\n")
+    long_chain = "".join("#define L%d L%d\n" % (i, i + 1) for i in range(100)) + "#define L100 end\n"
+    yield mk_case([], long_chain + "L0 L50 L99 L100 L101\n")
     chain = "".join("#define M%d M%d\n" % (i, i + 1) for i in range(40)) + "#define M40 end\n"
     yield mk_case([], chain + "M0 M20 M40 M41 \"M0\"\n")
     wide = "".join("#define W%d %d\n" % (i, i) for i in range(120))
